@@ -4,7 +4,7 @@
 # sensitivity waves); prints one line per check: property, exit code, violation signatures.
 d=$1; shift
 for p in "$@"; do
-  out=$(VERIF_REPO=$d /verif/bin/check $p --tier quick 2>&1); rc=$?
+  out=$(VERIF_EVIDENCE_DIR=/tmp/mut-evidence VERIF_REPO=$d /verif/bin/check $p --tier quick 2>&1); rc=$?
   sigs=$(echo "$out" | grep -a "signature:" | sed 's/ *signature: //' | tr '\n' ' ')
   echo "$p exit=$rc $sigs"
 done
